@@ -25,12 +25,10 @@ ProfileClauses(e) ==
 
 OkRange(e) ==
     IF e.kind = "npoint"
-    THEN LET inv  == NPointInvalid(e.tn, e.pn, e.lim)
-             tie  == (~NPointInverted(e.pn)) /\
-                     (\E i \in 1..(Len(e.pn) - 1) : SlopeTie(e.tn, e.pn, e.lim, i)) /\
-                     (\A i \in 1..(Len(e.pn) - 1) : SlopeTie(e.tn, e.pn, e.lim, i) \/ ~SlopeTooHigh(e.tn, e.pn, e.lim, i))
-         IN  IF tie THEN e.outcome = "invalid" \/ (e.outcome = "ok" /\ ProfileClauses(e))
-             ELSE IF inv THEN e.outcome = "invalid"
+    THEN LET inv    == NPointInvalid(e.tn, e.pn, e.lim)
+             strict == NPointStrictlyInvalid(e.tn, e.pn, e.lim)
+         IN  IF strict THEN e.outcome = "invalid"
+             ELSE IF inv THEN e.outcome = "invalid" \/ (e.outcome = "ok" /\ ProfileClauses(e))   \* boundary tie
              ELSE e.outcome = "ok" /\ ProfileClauses(e)
     ELSE e.outcome = "ok" /\ ProfileClauses(e)
 
